@@ -4,8 +4,15 @@ a data race or memory error.   Property theorems only (helpers: `Lemmas/Spsc.lea
 
 Scope (claimed *partial*): every theorem is about the sequentially consistent interleaving model
 (`RtcModel.Spsc`, `RtcModel.SpscTrack`): one step = one shared-memory access, any interleaving, any
-capacity, any number of operations. The C++11-style weak memory model (sufficiency of the
-Acquire/Release orderings) is NOT covered; the orderings are only pinned by the translator anchors.
+capacity, any number of operations, any word size `W = 2^k` (so index wrap-around is included). The
+C++11-style weak memory model (sufficiency of the Acquire/Release orderings) is NOT covered; the
+orderings are only pinned by the translator anchors. Sample values are atomic in the model: a torn
+slot access is inexpressible; what IS proved is that the two non-atomic accesses (slot write, slot
+read) never address the same slot at the same time (`ring_write_read_disjoint`, `no_slot_race`).
+
+Obligation classes: *property* theorems speak about the current code; *auxiliary* ones are the
+generated-constant obligation and the witnesses that document why the four fixes were needed
+(they are about superseded code versions and say so).
 -/
 import RtcModel.Lemmas.Spsc
 import RtcModel.Lemmas.SpscTrack
@@ -13,132 +20,159 @@ import RtcModel.Lemmas.SpscTrack
 namespace RtcModel.Theorems.C20
 open RtcModel.Spsc RtcModel.SpscTrack RtcModel.C20Word RtcModel.Generated
 
-/-! ### generated-constant obligations -/
+/-! ### generated-constant obligation (auxiliary) -/
 
-/-- `push`/`pop`/`Drop` advance their index by exactly one and a fresh ring starts empty at 0 -/
-theorem const_ring_increments :
-    spscPushInc = 1 ∧ spscPopInc = 1 ∧ spscDropInc = 1 ∧ spscInitHead = 0 ∧ spscInitTail = 0 := by decide
-
-/-- one initial sender; clone adds one, drop removes one, the sender that saw count 1 closes -/
-theorem const_sender_counting :
-    trackInitSenders = 1 ∧ trackCloneInc = 1 ∧ trackDropDec = 1 ∧ trackCloseWhenPrev = 1 := by decide
+/-- `push`/`pop`/`Drop` advance their index by exactly one, a fresh ring starts empty at 0, the
+mask is `slots - 1`; one initial sender, clone adds one, drop removes one, the sender that saw
+count 1 closes -/
+theorem const_obligations :
+    spscPushInc = 1 ∧ spscPopInc = 1 ∧ spscDropInc = 1 ∧ spscInitHead = 0 ∧ spscInitTail = 0 ∧
+    spscMaskDec = 1 ∧ trackInitSenders = 1 ∧ trackCloneInc = 1 ∧ trackDropDec = 1 ∧
+    trackCloseWhenPrev = 1 := by decide
 
 /-! ### the ring with one pusher role and one popper role (SPSC discipline) -/
 
-/-- **ring_invariant**: for every capacity, every word size and every interleaving of the individual
-accesses of one `push` sequence and one `pop` sequence (unbounded), the ring invariant holds. -/
-theorem ring_invariant (cap W : Nat) (h0 : 0 < cap) (h1 : cap < W) (ls : List RLabel)
-    (hw : NoWrap (rrun (RSys.init cap W) ls).ring) :
-    RingInv (rrun (RSys.init cap W) ls).ring (rrun (RSys.init cap W) ls).pu (rrun (RSys.init cap W) ls).po :=
-  rrun_inv _ ls (RingInv.init cap W h0 h1) hw
+/-- **ring_invariant**: for every capacity, every word size `2^k` and every interleaving of the
+individual accesses of one `push` sequence and one `pop` sequence (unbounded, across any number of
+index wrap-arounds), the ring invariant holds. -/
+theorem ring_invariant (cap k : Nat) (h0 : 0 < cap) (h1 : cap < 2 ^ k) (ls : List RLabel) :
+    RingInv (rrun (RSys.init cap (2 ^ k)) ls).ring (rrun (RSys.init cap (2 ^ k)) ls).pu
+      (rrun (RSys.init cap (2 ^ k)) ls).po :=
+  rrun_inv _ ls (RingInv.init cap k h0 h1)
 
-/-- **ring_slot_safety**: no access ever reads an uninitialised slot or overwrites an initialised one. -/
-theorem ring_slot_safety (cap W : Nat) (h0 : 0 < cap) (h1 : cap < W) (ls : List RLabel)
-    (hw : NoWrap (rrun (RSys.init cap W) ls).ring) :
-    (rrun (RSys.init cap W) ls).ring.bad = [] :=
-  (ring_invariant cap W h0 h1 ls hw).noBad
+/-- **ring_slot_safety** + FIFO: no access ever reads an uninitialised slot or overwrites an
+initialised one, and the values handed out by `pop` are exactly the first `hcount` values written
+by `push`, in order (nothing duplicated, reordered, invented or skipped). -/
+theorem ring_slot_safety (cap k : Nat) (h0 : 0 < cap) (h1 : cap < 2 ^ k) (ls : List RLabel) :
+    let r := (rrun (RSys.init cap (2 ^ k)) ls).ring
+    r.bad = [] ∧ r.outs = r.log.take r.hcount :=
+  ⟨(ring_invariant cap k h0 h1 ls).noBad, (ring_invariant cap k h0 h1 ls).outsEq⟩
 
-/-- **ring_fifo**: the values handed out by `pop` are exactly the first `hcount` values written by
-`push`, in order (nothing duplicated, reordered, invented or skipped). -/
-theorem ring_fifo (cap W : Nat) (h0 : 0 < cap) (h1 : cap < W) (ls : List RLabel)
-    (hw : NoWrap (rrun (RSys.init cap W) ls).ring) :
-    (rrun (RSys.init cap W) ls).ring.outs =
-      (rrun (RSys.init cap W) ls).ring.log.take (rrun (RSys.init cap W) ls).ring.hcount :=
-  (ring_invariant cap W h0 h1 ls hw).outsEq
+/-- **ring_write_read_disjoint** ("no data race" inside the SC model): whenever the pusher is about
+to write its slot and the popper is about to read (move out of) its slot — the only two accesses of
+the real code that are not atomic — they address different slots. -/
+theorem ring_write_read_disjoint (cap k : Nat) (h0 : 0 < cap) (h1 : cap < 2 ^ k) (ls : List RLabel)
+    (tl hl : Nat) (v : Val)
+    (hp : (rrun (RSys.init cap (2 ^ k)) ls).pu = some (.write tl, v))
+    (hq : (rrun (RSys.init cap (2 ^ k)) ls).po = some (.read hl)) :
+    (rrun (RSys.init cap (2 ^ k)) ls).ring.idx tl ≠ (rrun (RSys.init cap (2 ^ k)) ls).ring.idx hl := by
+  have h := ring_invariant cap k h0 h1 ls
+  rw [hp, hq] at h
+  exact write_read_disjoint h
 
 /-- **ring_drop_drains**: whenever nobody is inside `push`/`pop` (which `&mut self` of `Drop`
 guarantees), `Drop for SpscRing` drops exactly the values still queued — each once, oldest first —
-never touches an uninitialised slot and leaves no initialised slot behind. -/
-theorem ring_drop_drains (cap W : Nat) (h0 : 0 < cap) (h1 : cap < W) (ls : List RLabel)
-    (hw : NoWrap (rrun (RSys.init cap W) ls).ring)
-    (hq : (rrun (RSys.init cap W) ls).pu = none ∧ (rrun (RSys.init cap W) ls).po = none) :
-    let r := (rrun (RSys.init cap W) ls).ring
-    r.drop.2 = r.log.drop r.hcount ∧ r.drop.1.bad = [] ∧ ∀ i, i < r.cap → r.drop.1.slots i = none := by
-  have h := ring_invariant cap W h0 h1 ls hw
+never touches an uninitialised slot and leaves no slot of the buffer initialised. -/
+theorem ring_drop_drains (cap k : Nat) (h0 : 0 < cap) (h1 : cap < 2 ^ k) (ls : List RLabel)
+    (hq : (rrun (RSys.init cap (2 ^ k)) ls).pu = none ∧ (rrun (RSys.init cap (2 ^ k)) ls).po = none) :
+    let r := (rrun (RSys.init cap (2 ^ k)) ls).ring
+    r.drop.2 = r.log.drop r.hcount ∧ r.drop.1.bad = [] ∧ ∀ i, i < r.mask + 1 → r.drop.1.slots i = none := by
+  have h := ring_invariant cap k h0 h1 ls
   rw [hq.1, hq.2] at h
-  exact ring_drop_spec h hw
+  exact ring_drop_spec h
 
-/-- non-vacuity: a concrete interleaved run (capacity 2, two pushes overlapping a pop) satisfies the
-hypotheses and ends with one value delivered and one queued -/
+/-- non-vacuity: a concrete interleaved run (capacity 2, two pushes overlapping a pop) ends with one
+value delivered and one queued -/
 example :
     let s := rrun (RSys.init 2 (2 ^ 64))
       [.push (0, 7), .push (0, 7), .pop, .push (0, 7), .push (0, 7), .push (0, 7), .pop, .pop, .pop, .pop,
        .push (0, 8), .push (0, 8), .push (0, 8), .push (0, 8), .push (0, 8)]
-    NoWrap s.ring ∧ s.ring.outs = [(0, 7)] ∧ s.ring.drop.2 = [(0, 8)] ∧ s.pu = none ∧ s.po = none := by
-  refine ⟨Or.inl (by decide), by decide, by decide, by decide, by decide⟩
+    s.ring.outs = [(0, 7)] ∧ s.ring.drop.2 = [(0, 8)] ∧ s.pu = none ∧ s.po = none := by
+  refine ⟨by decide, by decide, by decide, by decide⟩
 
 /-- the wrap-around schedule: capacity 3 on a 2-bit machine word (`W = 4`); three push/pop pairs bring
-`tail` to 3, the fourth push writes slot `3 % 3 = 0` and wraps `tail` to 0, the fifth push then
-computes slot `0 % 3 = 0` again although that slot still holds the fourth value -/
+`tail` to 3, the fourth push wraps `tail` to 0, a fifth push follows while the fourth value is queued -/
 def wrapSchedule : List RLabel :=
   let push (v : Val) : List RLabel := List.replicate 5 (.push v)
   let pop : List RLabel := List.replicate 5 .pop
   push (0, 1) ++ pop ++ push (0, 2) ++ pop ++ push (0, 3) ++ pop ++ push (0, 4) ++ push (0, 5)
 
-/-- **slot_safety_needs_nowrap_witness** (KNOWN FINDING `sched:wrap-npot:*`): without the `NoWrap`
-hypothesis `ring_slot_safety` is FALSE — the full statement "for all capacities, word sizes and
-schedules no slot is overwritten or read uninitialised" fails once the indices wrap, for a capacity
-that does not divide the word modulus, even with a single producer and a single consumer.
-(`ring_slot_safety` is the part that holds: power-of-two capacities always, any capacity for the
-first `W` pushes.) -/
-theorem slot_safety_needs_nowrap_witness :
-    ¬ (∀ (cap W : Nat) (ls : List RLabel), 0 < cap → cap < W → (rrun (RSys.init cap W) ls).ring.bad = []) := by
-  intro h
-  have := h 3 4 wrapSchedule (by decide) (by decide)
-  revert this
-  decide
+/-- non-vacuity across the index wrap-around with a capacity that is not a power of two (the former
+finding `sched:wrap-npot`, fixed by `fix: SpscRing slot index stays consistent …`): with 4 slots behind
+capacity 3 the fifth value goes to its own slot and both queued values are drained by `Drop` -/
+example :
+    let s := rrun (RSys.init 3 (2 ^ 2)) wrapSchedule
+    s.ring.bad = [] ∧ s.ring.tail = 1 ∧ s.ring.tcount = 5 ∧ s.ring.drop.2 = [(0, 4), (0, 5)] := by
+  refine ⟨by decide, by decide, by decide, by decide⟩
 
 /-! ### the track queue: any number of producers (cloned / shared handles), one consumer, `stop()` -/
 
-/-- the initial state of the current code: `sample_track(kind, cap)` on a machine with word modulus `W` -/
-abbrev init (cap W : Nat) : St := St.init Variant.cur cap W 0
+/-- the initial state of the current code: `sample_track(kind, cap)` on a machine with `k`-bit words -/
+abbrev init (cap k : Nat) : St := St.init Variant.cur cap (2 ^ k) 0
 
 /-- **track_invariant**: after ANY interleaving (`ls`) of the individual shared-memory accesses of any
 number of producer threads (each label names a producer index; handles are created by `cloneTo` and
 dropped by `dropSrc` at arbitrary points; operations `send`, `send_many`, `try_send`), the consumer's
 `recv` and `stop()`, for every capacity: the lock discipline holds (at most one thread is inside
 `push`, at most one inside `pop`) and the ring invariant holds for the two lock holders. -/
-theorem track_invariant (cap W : Nat) (h0 : 0 < cap) (h1 : cap < W) (ls : List Label)
-    (hw : NoWrap (run (init cap W) ls).ring) : TInv (run (init cap W) ls) :=
-  run_TInv _ ls (TInv.init cap W h0 h1) hw
+theorem track_invariant (cap k : Nat) (h0 : 0 < cap) (h1 : cap < 2 ^ k) (ls : List Label) :
+    TInv (run (init cap k) ls) :=
+  run_TInv _ ls (TInv.init cap k h0 h1)
 
 /-- **multi_producer_safe** (which contains **slot_safety** for one producer): for every number of
 producers, every capacity and every schedule, no access ever reads an uninitialised slot or
 overwrites an initialised one, and the values handed out by `pop` (to the consumer or to a
 drop-oldest producer) are exactly the first `hcount` values written, in order. -/
-theorem multi_producer_safe (cap W : Nat) (h0 : 0 < cap) (h1 : cap < W) (ls : List Label)
-    (hw : NoWrap (run (init cap W) ls).ring) :
-    (run (init cap W) ls).ring.bad = [] ∧
-    (run (init cap W) ls).ring.outs = (run (init cap W) ls).ring.log.take (run (init cap W) ls).ring.hcount :=
-  ⟨(track_invariant cap W h0 h1 ls hw).ring.noBad, (track_invariant cap W h0 h1 ls hw).ring.outsEq⟩
+theorem multi_producer_safe (cap k : Nat) (h0 : 0 < cap) (h1 : cap < 2 ^ k) (ls : List Label) :
+    (run (init cap k) ls).ring.bad = [] ∧
+    (run (init cap k) ls).ring.outs = (run (init cap k) ls).ring.log.take (run (init cap k) ls).ring.hcount :=
+  ⟨(track_invariant cap k h0 h1 ls).ring.noBad, (track_invariant cap k h0 h1 ls).ring.outsEq⟩
 
 /-- **mutual_exclusion**: in every reachable state at most one thread is between the accesses of a
-`push` (it holds `push_lock`) and at most one between the accesses of a `pop` (it holds `pop_lock`). -/
-theorem mutual_exclusion (cap W : Nat) (h0 : 0 < cap) (h1 : cap < W) (ls : List Label)
-    (hw : NoWrap (run (init cap W) ls).ring) (i j : Nat) :
-    let s := run (init cap W) ls
+`push` (it holds `push_lock`), at most one producer is between the accesses of a drop-oldest `pop`,
+and never a producer and the consumer at once (they hold `pop_lock`). -/
+theorem mutual_exclusion (cap k : Nat) (ls : List Label) (i j : Nat) :
+    let s := run (init cap k) ls
     (holdsPush (s.pp i) = true → holdsPush (s.pp j) = true → i = j) ∧
+    (holdsPopP (s.pp i) = true → holdsPopP (s.pp j) = true → i = j) ∧
     (holdsPopP (s.pp i) = true → holdsPopC s.cp = false) := by
-  have h := (track_invariant cap W h0 h1 ls hw).l
-  refine ⟨fun a b => ?_, fun a => ?_⟩
+  have h : LInv (run (init cap k) ls) := run_induct LInv step_LInv _ ls (LInv.init cap (2 ^ k))
+  refine ⟨fun a b => ?_, fun a b => ?_, fun a => ?_⟩
   · have := (h.plockIff i).1 a; have := (h.plockIff j).1 b; simp_all
+  · have := (h.poplockP i).1 a; have := (h.poplockP j).1 b; simp_all
   · have := (h.poplockP i).1 a
-    cases hc : holdsPopC (run (init cap W) ls).cp with
+    cases hc : holdsPopC (run (init cap k) ls).cp with
     | false => rfl
     | true => have := h.poplockC.1 hc; simp_all
 
+/-- **no_slot_race** ("no data race" inside the SC model, track level): whenever some producer is
+about to write a slot (`MaybeUninit::write`), nobody else is about to write one, and whoever is about
+to read a slot (`assume_init_read`: the consumer, or — vacuously — a drop-oldest producer) addresses
+a different slot. -/
+theorem no_slot_race (cap k : Nat) (h0 : 0 < cap) (h1 : cap < 2 ^ k) (ls : List Label)
+    (i tl v : Nat) (c : Ctx) (rest : List Nat)
+    (hw : (run (init cap k) ls).pp i = .push c v rest (.write tl)) :
+    (∀ j c' v' rest' tl', (run (init cap k) ls).pp j = .push c' v' rest' (.write tl') → j = i) ∧
+    (∀ j v' rest' hl, (run (init cap k) ls).pp j ≠ .pop v' rest' (.read hl)) ∧
+    (∀ g cl hl, (run (init cap k) ls).cp = .pop g cl (.read hl) →
+      (run (init cap k) ls).ring.idx tl ≠ (run (init cap k) ls).ring.idx hl) :=
+  no_slot_race_of_inv _ (track_invariant cap k h0 h1 ls) i tl v c rest hw
+
 /-- **slot_safety_drop**: whenever no thread is inside `push`/`pop` (in particular when the last
 `Arc` of the ring is released), `Drop for SpscRing` drops exactly the queued samples, each once. -/
-theorem slot_safety_drop (cap W : Nat) (h0 : 0 < cap) (h1 : cap < W) (ls : List Label)
-    (hw : NoWrap (run (init cap W) ls).ring)
-    (hq : (run (init cap W) ls).plock = none ∧ (run (init cap W) ls).poplock = none) :
-    let r := (run (init cap W) ls).ring
-    r.drop.2 = r.log.drop r.hcount ∧ r.drop.1.bad = [] ∧ ∀ i, i < r.cap → r.drop.1.slots i = none := by
-  have h := (track_invariant cap W h0 h1 ls hw).ring
-  have e1 : (run (init cap W) ls).puView = none := by simp [St.puView, hq.1]
-  have e2 : (run (init cap W) ls).poView = none := by simp [St.poView, hq.2]
+theorem slot_safety_drop (cap k : Nat) (h0 : 0 < cap) (h1 : cap < 2 ^ k) (ls : List Label)
+    (hq : (run (init cap k) ls).plock = none ∧ (run (init cap k) ls).poplock = none) :
+    let r := (run (init cap k) ls).ring
+    r.drop.2 = r.log.drop r.hcount ∧ r.drop.1.bad = [] ∧ ∀ i, i < r.mask + 1 → r.drop.1.slots i = none := by
+  have h := (track_invariant cap k h0 h1 ls).ring
+  have e1 : (run (init cap k) ls).puView = none := by simp [St.puView, hq.1]
+  have e2 : (run (init cap k) ls).poView = none := by simp [St.poView, hq.2]
   rw [e1, e2] at h
-  exact ring_drop_spec h hw
+  exact ring_drop_spec h
+
+/-- **conservation**: in every reachable state, the values handed out by `pop` so far (`outs`, a prefix
+of the pushed values `log`) are an *interleaving* of what `recv` returned (`recvd`) and what the
+drop-oldest path of `send` discarded (`droppedOld`): each popped sample went to exactly one of the
+two, nothing popped vanished, nothing was delivered that was not popped, orders kept. -/
+theorem conservation (cap k : Nat) (h0 : 0 < cap) (h1 : cap < 2 ^ k) (ls : List Label) :
+    let s := run (init cap k) ls
+    Interleave s.recvd s.droppedOld (s.ring.log.take s.ring.hcount) := by
+  intro s
+  have hg : GInv s := run_GInv _ ls (GInv.init _ cap (2 ^ k))
+  have ho := (track_invariant cap k h0 h1 ls).ring.outsEq
+  unfold GInv at hg
+  rw [ho] at hg
+  exact hg
 
 /-- **no_dup_no_reorder**: `log` is the sequence of successful pushes (slot writes) in execution
 order, each entry tagged with the pushing thread and its payload; `recvd` is what `recv` returned.
@@ -146,30 +180,26 @@ For every number of producers, capacity and schedule, with overflow (drop-oldest
 `try_send`), `stop()` and source drops anywhere: the received samples are a *subsequence* of the
 pushed ones — every received sample is one pushed sample (same tag and payload), none is received
 twice, and the samples of each producer arrive in the order that producer pushed them. -/
-theorem no_dup_no_reorder (cap W : Nat) (h0 : 0 < cap) (h1 : cap < W) (ls : List Label)
-    (hw : NoWrap (run (init cap W) ls).ring) :
-    let s := run (init cap W) ls
+theorem no_dup_no_reorder (cap k : Nat) (h0 : 0 < cap) (h1 : cap < 2 ^ k) (ls : List Label) :
+    let s := run (init cap k) ls
     List.Sublist s.recvd s.ring.log ∧
     ∀ i : Nat, List.Sublist (s.recvd.filter (fun x => x.1 == i)) (s.ring.log.filter (fun x => x.1 == i)) := by
-  have hg : GInv (run (init cap W) ls) := run_GInv _ ls (GInv.init _ cap W)
-  have ho := (track_invariant cap W h0 h1 ls hw).ring.outsEq
-  have hsub : List.Sublist (run (init cap W) ls).recvd (run (init cap W) ls).ring.log := by
-    unfold GInv at hg
-    rw [ho] at hg
-    exact hg.trans (List.take_sublist _ _)
+  have hsub : List.Sublist (run (init cap k) ls).recvd (run (init cap k) ls).ring.log :=
+    (conservation cap k h0 h1 ls).sub_left.trans (List.take_sublist _ _)
   exact ⟨hsub, fun i => hsub.filter _⟩
 
 /-- **drain_then_eos** (safety half): for every schedule in which `stop()` was never called, whenever
 `recv` has returned end-of-stream (and whenever the `ended` flag is set), every source handle has been
-dropped (`closed`) and the queue has been drained completely: every sample ever pushed has been
-popped (`hcount = tcount`), and that remains so. -/
-theorem eos_only_when_drained (cap W : Nat) (h0 : 0 < cap) (h1 : cap < W) (ls : List Label)
-    (hw : NoWrap (run (init cap W) ls).ring) :
-    let s := run (init cap W) ls
+dropped (`closed`), every sample ever pushed has been popped, and the pushed samples are exactly an
+interleaving of the received ones and the ones discarded by drop-oldest overflow: every sample that
+was still queued when the source closed has been *delivered* (after the close no producer exists that
+could discard anything). -/
+theorem eos_only_when_drained (cap k : Nat) (h0 : 0 < cap) (h1 : cap < 2 ^ k) (ls : List Label) :
+    let s := run (init cap k) ls
     s.stopCalled = false → (CRes.eos ∈ s.cres ∨ s.ended = true) →
-      s.closed = true ∧ s.ring.hcount = s.ring.tcount ∧ s.ring.outs = s.ring.log := by
+      s.closed = true ∧ s.ring.hcount = s.ring.tcount ∧ Interleave s.recvd s.droppedOld s.ring.log := by
   intro s hs he
-  have hF : FInv s := run_FInv _ ls (FInv.init cap W h0 h1) hw
+  have hF : FInv s := run_FInv _ ls (FInv.init cap k h0 h1)
   have hd : Drained s := by
     cases he with
     | inl h => exact (hF.e.eos h).resolve_left (by simp [hs])
@@ -186,16 +216,18 @@ theorem eos_only_when_drained (cap W : Nat) (h0 : 0 < cap) (h1 : cap < W) (ls : 
   have hlen : s.ring.log.length = s.ring.tcount := by
     have := hr.logLen
     simpa [St.puView, hnh, pendW] using this
-  rw [hr.outsEq, hd.2, ← hlen, List.take_length]
+  have hc := conservation cap k h0 h1 ls
+  have e : s.ring.log.take s.ring.hcount = s.ring.log := by rw [hd.2, ← hlen, List.take_length]
+  rw [← e]; exact hc
 
-/-- **no_lost_wakeup_after_close** (drain_then_eos, liveness ingredient; needs no `NoWrap`): in every
+/-- **no_lost_wakeup_after_close** (drain_then_eos, liveness ingredient): in every
 reachable state in which every source handle has been dropped and the closing thread has finished
 (so nothing will ever notify again), the consumer is NOT blocked — neither on `pop_lock` nor in
 `notified.await` — so each of its steps makes progress through `recv`, whose only exits are a sample
 or end-of-stream (`eos_only_when_drained` says what end-of-stream then means). A bound on the number
 of consumer steps to the next `recv` result is not proved (see NOTES). -/
 theorem no_lost_wakeup_after_close (cap W : Nat) (ls : List Label) :
-    let s := run (init cap W) ls
+    let s := run (St.init Variant.cur cap W 0) ls
     s.closed = true → (∀ i, s.pp i = .none ∨ s.pp i = .reserved ∨ s.pp i = .gone) →
       blocked s (.cons false) = false := by
   intro s hc hg
@@ -204,24 +236,24 @@ theorem no_lost_wakeup_after_close (cap W : Nat) (ls : List Label) :
 /-- non-vacuity of `no_lost_wakeup_after_close`: the close lands exactly in the old lost-wake-up window
 (after the consumer read `source_closed = false`), and the consumer's next step is enabled -/
 example :
-    let s := run (init 1 (2 ^ 64)) [.cons true, .cons false, .cons false, .cons false, .cons false, .cons false,
-      .cons false, .prod 0 (some .dropSrc), .prod 0 none, .prod 0 none, .prod 0 none]
+    let s := run (init 1 64) [.cons true, .cons false, .cons false, .cons false, .cons false, .cons false,
+      .cons false, .cons false, .prod 0 (some .dropSrc), .prod 0 none, .prod 0 none, .prod 0 none]
     s.closed = true ∧ s.pp 0 = .gone ∧ s.cp = .await1 0 ∧ blocked s (.cons false) = false := by
   decide
 
 /-- non-vacuity: three producers (two clones), a full capacity-1 queue with drop-oldest, a consumer:
-the hypotheses hold and the run delivers a sample -/
+the run delivers a sample, rejects one and discards none -/
 example :
-    let s := run (init 1 (2 ^ 64))
+    let s := run (init 1 64)
       [.prod 0 (some (.cloneTo 1)), .prod 0 none, .prod 1 (some (.cloneTo 2)), .prod 1 none,
        .prod 0 (some (.send [1])), .prod 2 (some (.trySend 1)), .prod 0 none, .prod 2 none, .prod 0 none,
        .prod 0 none, .prod 0 none, .cons true, .prod 0 none, .prod 0 none, .prod 0 none,
        .prod 2 none, .prod 2 none, .prod 2 none, .prod 2 none, .cons false, .cons false, .cons false,
        .cons false, .cons false, .cons false, .cons false, .cons false, .cons false]
-    NoWrap s.ring ∧ s.recvd = [(0, 1)] ∧ s.rejected = [(2, 1)] := by
-  refine ⟨Or.inl (by decide), by decide, by decide⟩
+    s.recvd = [(0, 1)] ∧ s.rejected = [(2, 1)] ∧ s.droppedOld = [] := by
+  refine ⟨by decide, by decide, by decide⟩
 
-/-! ### findings (earlier code versions) -/
+/-! ### auxiliary: witnesses about SUPERSEDED code versions (why the fixes were needed) -/
 
 /-- The schedule of the design-time finding: two producers (cloned handles), no producer lock.
 Both load `tail = 0`, both pass the full-check, both write slot 0. -/
@@ -237,7 +269,7 @@ producers of the sample queues" (`plock = false`) slot safety is FALSE: the sche
 second producer overwrite the initialised slot 0 (first sample lost and leaked; replayed on the real
 code: `sched:2:leaked-sample`, and with a stalled producer `sched:2:crash-signal-11`). -/
 theorem multi_producer_unsafe_without_lock_witness :
-    ¬ (∀ ls : List Label, (run (St.init ⟨false, false⟩ 2 (2 ^ 64) 0) ls).ring.bad = []) := by
+    ¬ (∀ ls : List Label, (run (St.init ⟨false, false, false⟩ 2 (2 ^ 64) 0) ls).ring.bad = []) := by
   intro h
   have := h twoProducerSchedule
   revert this
@@ -246,7 +278,7 @@ theorem multi_producer_unsafe_without_lock_witness :
 /-- The schedule of the second finding: the consumer finds the queue empty, then the producer pushes
 its last sample and drops the source, then the consumer reads `source_closed`. -/
 def lateCloseSchedule : List Label :=
-  [.cons true, .cons false, .cons false, .cons false, .cons false,                    -- recv: … pop → None
+  [.cons true, .cons false, .cons false, .cons false, .cons false, .cons false,       -- recv: … pop → None
    .prod 0 (some (.send [1])), .prod 0 none, .prod 0 none, .prod 0 none, .prod 0 none,
    .prod 0 none, .prod 0 none, .prod 0 none,                                            -- send completes
    .prod 0 (some .dropSrc), .prod 0 none, .prod 0 none, .prod 0 none,                   -- source dropped
@@ -257,7 +289,7 @@ def lateCloseSchedule : List Label :=
 while a pushed sample is still queued and is never delivered (replayed on the real code:
 `sched:1:eos-before-drained`). -/
 theorem eos_before_drained_witness :
-    ¬ (∀ ls : List Label, let s := run (St.init ⟨true, false⟩ 1 (2 ^ 64) 0) ls
+    ¬ (∀ ls : List Label, let s := run (St.init ⟨true, false, false⟩ 1 (2 ^ 64) 0) ls
         s.stopCalled = false → CRes.eos ∈ s.cres → s.ring.hcount = s.ring.tcount) := by
   intro h
   have := h lateCloseSchedule
@@ -267,7 +299,7 @@ theorem eos_before_drained_witness :
 /-- The schedule of the third finding: the source is dropped after the consumer has read
 `source_closed = false` but before it creates its `Notified`. -/
 def lostWakeupSchedule : List Label :=
-  [.cons true, .cons false, .cons false, .cons false, .cons false, .cons false,        -- … closed? no → unlock
+  [.cons true, .cons false, .cons false, .cons false, .cons false, .cons false, .cons false,  -- … closed? no → unlock
    .prod 0 (some .dropSrc), .prod 0 none, .prod 0 none, .prod 0 none,                   -- drop: closed, notify_waiters
    .cons false]                                                                         -- notified().await
 
@@ -276,7 +308,7 @@ forever: every source is dropped and `notify_waiters` has run, yet the consumer'
 registered and was never woken (replayed on the real code: `sched:1:close-never-wakes-consumer`;
 same window for `stop()`: `sched:1:stop-never-wakes-consumer`). -/
 theorem lost_wakeup_witness :
-    let s := run (St.init ⟨true, false⟩ 1 (2 ^ 64) 0) lostWakeupSchedule
+    let s := run (St.init ⟨true, false, false⟩ 1 (2 ^ 64) 0) lostWakeupSchedule
     s.closed = true ∧ s.live = [] ∧ s.pp 0 = .gone ∧ s.cp = .await2 ∧ s.ntf.woken = false ∧
     blocked s (.cons false) = true := by
   decide
@@ -284,7 +316,7 @@ theorem lost_wakeup_witness :
 /-- on the current code the same two schedules end correctly: the late sample is delivered before
 end-of-stream, and the closing `notify_waiters` reaches the `Notified` created first -/
 example :
-    let s := run (init 1 (2 ^ 64)) ([.cons true, .cons false, .cons false, .cons false, .cons false, .cons false, .cons false] ++
+    let s := run (init 1 64) ([.cons true, .cons false, .cons false, .cons false, .cons false, .cons false, .cons false, .cons false] ++
       [.prod 0 (some .dropSrc), .prod 0 none, .prod 0 none, .prod 0 none] ++
       [.cons false, .cons false, .cons false, .cons false])
     s.cres = [CRes.eos] ∧ blocked s (.cons false) = false := by
